@@ -178,7 +178,14 @@ def _loader_case(case):
                                rotations=Rotation.from_rotvec([[0, 0, 0], [0.35, 0, 0], [0, 0, -0.35]])).molecules
         elif p["entry"] == "multi":
             t2 = gen.render_box(shape, gen.make_blobs(rng, shape, sigma=(0.9, 1.2), r_sup=1.5))
-            out = loader.align_multi_templates([tmpl, t2], max_shifts=ms_arg, alignment_model=Model).molecules
+            how = int(rng.integers(0, 3))   # the three spellings of a multi-template search
+            case.count(f"multi_entry_{how}")
+            if how == 0:
+                out = loader.align_multi_templates([tmpl, t2], max_shifts=ms_arg, alignment_model=Model).molecules
+            elif how == 1:
+                out = loader.align([tmpl, t2], max_shifts=ms_arg, alignment_model=Model).molecules
+            else:
+                out = loader.align(np.stack([tmpl, t2]), max_shifts=ms_arg, alignment_model=Model).molecules
         elif p["entry"] == "notemplate":
             if p["ms_form"] in ("tuple", "array"):
                 ms_arg = tuple(float(x) for x in np.minimum(ms_nm, 0.9 * scale))
